@@ -2391,11 +2391,15 @@ where
                 return Ok(true);
             }
             AdvanceLoc { delta } => {
-                let delta = Wrapping(u64::from(delta)) * self.code_alignment_factor;
+                // The factored advance is an address advance, so a product that does not
+                // fit is an overflow, just like a sum that does not fit.
+                let delta = u64::from(delta)
+                    .checked_mul(self.code_alignment_factor.0)
+                    .ok_or(Error::AddressOverflow)?;
                 self.next_start_address = self
                     .ctx
                     .start_address()
-                    .add_sized(delta.0, self.address_size)?;
+                    .add_sized(delta, self.address_size)?;
                 self.ctx.row_mut().end_address = self.next_start_address;
                 return Ok(true);
             }
